@@ -45,6 +45,8 @@ theorem C18_header_layout :
     Generated.headerUnmarshal = [("copy", 0, "-", "-", "data[:8]"), ("get", 32, "8", "12", "")] := by
   decide
 
+/-- (The size of an encoded record — `encodedRecordSize` — is no longer compared as source text here: it is
+translated and proved equal to the model's record length for every argument, `G01_encodedRecordSize`.) -/
 theorem C18_record_layout :
     Generated.recordEncode =
       [("put", 16, "-", "2", "len(key)"), ("put", 32, "2", "-", "valLen"), ("copy", 0, "6", "-", "key"),
@@ -53,7 +55,6 @@ theorem C18_record_layout :
     Generated.recordDecode =
       [("get", 16, "-", "2", ""), ("get", 32, "2", "-", ""), ("copy", 0, "-", "-", "kvSizeBuf"),
        ("get", 32, "len(data) - 4", "-", ""), ("crc", 32, "-", "len(data) - 4", "")] ∧
-    Generated.encodedRecordSizeExpr = some "6 + kvSize + 4" ∧
     Generated.deleteBitExprs = ["valLen |= 2147483648", "valueSize & 2147483648", "valueSize &^= 2147483648"] := by
   decide
 
